@@ -82,6 +82,14 @@ theorem read_write_framed (pre suf : List Char)
   exact ⟨frameSer_no_linebreak pre suf r '\n' (Or.inl rfl) hnl.1 hnl.2.2.1,
     not_getLast_of_not_mem _ _ (frameSer_no_linebreak pre suf r '\r' (Or.inr rfl) hnl.2.1 hnl.2.2.2)⟩
 
+/-- non-vacuity of `read_write_framed`: all three hypotheses hold together for a skeleton shaped
+like the real one -/
+example : (∀ c, ['{', '"', 'c', '"', ':'].head? = some c → isJsonWs c = false) ∧
+    (∀ c, [',', '"', 'w', '"', ':', '0', '}'].getLast? = some c → isJsonWs c = false) ∧
+    ('\n' ∉ ['{', '"', 'c', '"', ':'] ∧ '\r' ∉ ['{', '"', 'c', '"', ':'] ∧
+     '\n' ∉ [',', '"', 'w', '"', ':', '0', '}'] ∧ '\r' ∉ [',', '"', 'w', '"', ':', '0', '}']) := by
+  decide
+
 /-- Appending a second `Stats::write` to the same log is writing the concatenation … -/
 theorem append_composes {ρ} (ser : ρ → List Char) (rs₁ rs₂ : List ρ) :
     write ser rs₁ ++ write ser rs₂ = write ser (rs₁ ++ rs₂) := by
@@ -118,6 +126,33 @@ theorem read_fails_of_bad_record {ρ} (ser : ρ → List Char) (parse : List Cha
     · simp [parseAll, hbad]
     · simp only [List.map_cons, parseAll, ih h]
       split <;> rfl
+
+/-- the serialiser of the recorded defect, in miniature: a record is either a string (written as a
+JSON string) or a non-finite number (written as `null`), read back by the string parser -/
+def serOrNull : Option (List Char) → List Char
+  | some s => jsonString s
+  | none => ['n', 'u', 'l', 'l']
+
+theorem serOrNull_line (r : Option (List Char)) :
+    '\n' ∉ serOrNull r ∧ (serOrNull r).getLast? ≠ some '\r' := by
+  cases r with
+  | none => decide
+  | some s =>
+    refine ⟨(jsonString_no_linebreak s).1, ?_⟩
+    show (jsonString s).getLast? ≠ some '\r'
+    rw [jsonString_getLast]; decide
+
+/-- non-vacuity of `read_fails_of_bad_record`: every record is written on one line, the `null`
+record is in the list and does not parse back — so the whole log is rejected, although the two good
+records on their own read back -/
+example : (none : Option (List Char)) ∈ [some ['a', '\n'], none, some ['b']] ∧
+    (parseJsonString (serOrNull none)).map some = none ∧
+    read (fun l => (parseJsonString l).map some)
+      (write serOrNull [some ['a', '\n'], none, some ['b']]) = none ∧
+    read (fun l => (parseJsonString l).map some)
+      (write serOrNull [some ['a', '\n'], some ['b']]) = some [some ['a', '\n'], some ['b']] :=
+  ⟨by decide, by decide,
+   read_fails_of_bad_record serOrNull _ serOrNull_line _ none (by decide) (by decide), by decide⟩
 
 /-- `Stats::summarize` counts every lint record exactly once: the total is the number of lint
 records, the counter of kind `k` is the number of lint records of kind `k`, the counters add up
